@@ -78,7 +78,7 @@ impl ExcHandler {
     #[verifier::external_body]
     fn has_catch_block(&self) -> bool { unimplemented!() }
 }
-//@struct file=yarel/src/object.rs name=ObjFiber keepfields=caller,stack,frames,return_ip,return_value,error_ip,handling_exception,pending_exception,return_handler_count,exc_handlers map "*const u8" => "usize" map "Stack<Value, STACK_MAX>" => "StackS" addfield "pub ghost closed_from: int" addfield "pub ghost has_handler: bool"
+//@struct file=yarel/src/object.rs name=ObjFiber keepfields=caller,stack,frames,return_ip,return_value,error_ip,handling_exception,pending_exception,return_handler_count,exc_handlers map "*const u8" => "usize" map "Stack<Value, STACK_MAX>" => "StackS" addfield "pub ghost closed_from: int" addfield "pub ghost has_handler: bool" addfield "pub ghost height: int"
 impl ObjFiber {
     //@fn file=yarel/src/object.rs path=ObjFiber::has_finished ret=r
     //@  ensures r == (self.frames@.len() == 0)
@@ -91,7 +91,7 @@ impl ObjFiber {
     // the most recent call.
     #[verifier::external_body]
     fn close_upvalues(&mut self, index: usize)
-        ensures final(self).frames == old(self).frames, final(self).caller == old(self).caller, final(self).closed_from == index,
+        ensures final(self).frames == old(self).frames, final(self).caller == old(self).caller, final(self).closed_from == index, final(self).height == old(self).height,
     { unimplemented!() }
     #[verifier::external_body]
     fn close_upvalues_for_frame(&mut self)
@@ -157,7 +157,7 @@ impl Vm {
     fn new_error_from_value(&mut self, value: Value) -> Error ensures old(self).same_fiber_handles(final(self)), old(self).same_active_frames(final(self)) { unimplemented!() }
     // assumed (C04): compiled code executes CloseUpvalue only with the captured local on the stack
     #[verifier::external_body]
-    fn stack_size(&self) -> (r: usize) ensures r >= 1 { unimplemented!() }
+    fn stack_size(&self) -> (r: usize) ensures r >= 1, r == self.active.height { unimplemented!() }
     #[verifier::external_body]
     fn load_frame(&mut self) ensures old(self).same_fiber_handles(final(self)), old(self).same_active_frames(final(self)) { unimplemented!() }
     // assumed: a fiber that is being switched to / from has at least one frame unless has_finished() (C02 fact of Vm)
@@ -239,7 +239,7 @@ impl Vm {
     //@  requires old(self).coherent(), old(self).fiber is Some
     //@  ensures final(self).coherent()
     //@  at body.start proof { self.active.closed_from = 0x7fff_ffff_ffff_ffff; }
-    //@  assert @popped_slot_closed before_stmt "self.pop()" self.active.closed_from <= stack_size - 1
+    //@  assert @popped_slot_closed before_stmt "self.pop()" self.active.closed_from <= self.active.height - 1
     //@end
 }
 
